@@ -399,6 +399,10 @@ public:
             return;
         for (int i = 0; i < gn.nChildren(); i++) {
             gn.goForward(i);
+            if (gn.getPos().getHalfMoveClock() >= 100) {   // hooks/fix-c19-import-cycle.patch: not imported
+                gn.goBack();                               // (never reached by the generated games)
+                continue;
+            }
             U64 h = gn.getPos().bookHash();
             if (!posOf.count(h)) {
                 SimAdd a;
